@@ -148,13 +148,6 @@ func (f *SubscriptionFieldFilter) SkipEvent(ctx *Context, data []byte) (bool, er
 					return true, nil
 				}
 
-				// Short circuit if the types are the same we can compare the bytes directly
-				if expectedDataType == valueType {
-					if bytes.Equal(expected, actualRawBytes) {
-						return false, nil
-					}
-				}
-
 				// The event data must be stringified to match against the stringified expected value
 				// This is only necessary when the expected value is a string because all other types
 				// are already the JSON representation of the actual value. Examples:
@@ -162,13 +155,28 @@ func (f *SubscriptionFieldFilter) SkipEvent(ctx *Context, data []byte) (bool, er
 				// Boolean: true -> JSON: "true"
 				// Number: 42 -> JSON: "42"
 				// Null: null -> JSON: "null"
-				// The stringified form is kept apart from expected: expected is compared with every value of
-				// the list, stringifying it in place would quote it once more for each further value.
-				stringified := expected
+				// Both forms are kept apart from expected: expected is compared with every value of the
+				// list, changing it in place would quote it once more for each further value.
+				plain, stringified := expected, expected
 				if expectedDataType == jsonparser.String {
-					stringified, err = json.Marshal(string(expected))
+					// jsonparser.Get returns the raw bytes between the quotes: escape sequences are
+					// decoded first, so that a value with a quote or backslash is compared as the
+					// string it denotes (a variable renders plain) and is not escaped twice
+					unescaped, err := jsonparser.ParseString(expected)
 					if err != nil {
 						return true, err
+					}
+					plain = []byte(unescaped)
+					stringified, err = json.Marshal(unescaped)
+					if err != nil {
+						return true, err
+					}
+				}
+
+				// Short circuit if the types are the same we can compare the bytes directly
+				if expectedDataType == valueType {
+					if bytes.Equal(plain, actualRawBytes) {
+						return false, nil
 					}
 				}
 
